@@ -204,10 +204,24 @@ def full_language_event(rng):
     return text, meta, feats
 
 
-def ser_case(srv, part, rng, tier):
+def big_task(pad):
+    """a plain task whose written form is a little over 4 KiB (the writer's buffer), PAD moves everything behind SUMMARY"""
+    text = "\n".join([
+        "BEGIN:VCALENDAR", "VERSION:2.0", "BEGIN:VEVENT", "UID:big-%d@verif" % pad,
+        "SUMMARY:echo " + "s" * pad, "DESCRIPTION:" + "d" * 880, "LOCATION:/" + "l" * 870,
+        "X-ECHS-IFILE:/" + "i" * 760, "X-ECHS-OFILE:/" + "o" * 760, "X-ECHS-EFILE:/" + "e" * 600,
+        "X-ECHS-SHELL:/bin/sh", "X-ECHS-UMASK:027", "X-ECHS-MAX-SIMUL:1", "X-ECHS-MAIL-OUT:1", "X-ECHS-MAIL-ERR:1",
+        "ORGANIZER:echse+host", "ATTENDEE:joe@example.com", "ATTENDEE:ann@example.org",
+        "DTSTART:20200301T101500Z", "DURATION:PT1H30M", "RRULE:FREQ=DAILY;INTERVAL=2;BYHOUR=3,10,17;BYMINUTE=15,45;COUNT=24",
+        "END:VEVENT", "END:VCALENDAR", ""])
+    meta = {"rules": ["FREQ=DAILY;INTERVAL=2;BYHOUR=3,10,17;BYMINUTE=15,45;COUNT=24"], "esc_raw": None}
+    return text, meta, {"DAILY", "DURATION"}
+
+
+def ser_case(srv, part, rng, tier, forced=None):
     """(2) serialise after k pops, re-parse, compare"""
-    text, meta, feats = full_language_event(rng)
-    k = rng.choice([0, 0, 1, 31, 62, 63, 64, 65, 130])
+    text, meta, feats = forced if forced else full_language_event(rng)
+    k = rng.choice([0, 0, 1, 31, 62, 63, 64, 65, 130]) if not forced else 0
     N = 30
     part.evaluations += 1
     lines = srv.case("fields=1 ser=1 skip=%d n=%d budget=15000" % (k, N), text)
@@ -366,6 +380,9 @@ def worker(args):
     part = Part()
     srv = CaseServer(build.exe(root, "asan", "h_strm"), wall_timeout=120)
     rng = rng_for(seed, PROP, wid)
+    # the workers share the sweep: 16 x nsweep consecutive paddings
+    nsweep = 24 if tier == "quick" else 300
+    sweep0 = wid * nsweep
     try:
         for k in range(max(nf, ns)):
             try:
@@ -373,6 +390,10 @@ def worker(args):
                     field_case(srv, part, rng)
                 if k < ns:
                     ser_case(srv, part, rng, tier)
+                if k < nsweep:
+                    # every alignment of the written task relative to the 4096-byte print buffer, one byte at a time
+                    ser_case(srv, part, rng, tier, forced=big_task(sweep0 + k))
+                    part.count("buffer_alignments_swept")
                 if k < nc:
                     cli_case(part, rng, root)
             except HarnessCrash as e:
